@@ -21,16 +21,34 @@ CFG = {
              "the allocator refused or the surface exceeds isize::MAX; no size hypothesis for the forward calls), "
              "and on a stream that delivers the data section with a sufficient limit every call list gives the "
              "ideal results and after every prefix the reader position is base + the offset of the next surface "
-             "in C02's flattened list (reader_position_is_cursor_offset; data <= i64::MAX). Tied to the code on every run by a hostile-input "
+             "in C02's flattened list (reader_position_is_cursor_offset; data <= i64::MAX). The per-block / per-pixel "
+             "codec BODIES are inside the proof too: trapping mirrors (Trap*.lean: every plain + - * on "
+             "u8/u16/u32/i8/i16/i32, every shift amount, every run-time index, division, debug_assert!/assert!/"
+             "unreachable! is a possible panic value) of the BC1-5 decoders (13 decoders x 3 precisions), of the whole "
+             "BC7 and BC6H block decodes incl. BitStream / Indexes / header extraction / sign_extend asserts / "
+             "palette indexing and the six half conversions with bc6h_uf16's asserts, of all 45 uncompressed / "
+             "sub-sampled / bi-planar pixel bodies x 3 precisions (every formats.rs conversion incl. XR_BIAS i16, "
+             "fp16/fp11/fp10/R9G9B9E5 exponent arithmetic and two_powi), of r1_bits, convert_channels and the "
+             "process_pixels helpers return, for EVERY block / encoded value, Some of exactly what the wrapping models "
+             "of C03/C03x/C04 compute: no panic site of a body is reachable and checked = release arithmetic "
+             "(bc1to5_bodies_trapfree, bc7_body_trapfree, bc6_body_trapfree, uncompressed_bodies_trapfree, "
+             "subsampled_biplanar_bodies_trapfree, channel_conversion_trapfree, pixel_loop_wrappers_trapfree). Tied to the code on every run by a hostile-input "
              "differential run (structured and mutated headers, truncations at every offset, option matrix, fault "
              "injecting Read+Seek, all 73 formats x 12 colours) in release and overflow-checking builds under "
              "catch_unwind and a watchdog.",
     "note": "Trusted: Lean kernel + propext/Classical.choice/Quot.sound; the hand-written models (Header, HeaderTables, "
-            "FormatTables, Layout, Iter, Stream, Addr, Decoder, Reader); the correspondence check and its generators. "
-            "NOT modelled for totality (exercised only): per-pixel / per-block codec bodies (BC1-7, BC6H, ASTC via the "
-            "external astc-decode crate, uncompressed / sub-sampled / bi-planar conversion arithmetic on fixed arrays), "
-            "convert_channels_for, std I/O and allocation. Termination of the implementation is only observed "
-            "(watchdog), the model functions are all structurally recursive.",
+            "FormatTables, Layout, Iter, Stream, Addr, Decoder, Reader; for the codec bodies the value models Bc, Bc7, Bc6, "
+            "Conv, Uncompressed and their trapping mirrors Trap, TrapBc, TrapBc7, TrapBc6, TrapUnc, whose fidelity to the "
+            "Rust text is by inspection: notes/C01.md lists panic site file:line -> mirror -> theorem; the value models "
+            "are tied to the code by the C03/C03x/C04 checks, which run the real decoders in the overflow-checking "
+            "profile under catch_unwind); the correspondence check and its generators. PROVED panic-free for all inputs: "
+            "parse, layout, iterator, stream, output addressing AND the per-block / per-pixel bodies of BC1-5, BC7, BC6H, "
+            "the 45 uncompressed / sub-sampled / bi-planar formats, r1_bits, convert_channels, process_pixels_helper(_unroll). "
+            "STILL only exercised: the external astc-decode crate (ASTC bodies), the slicing inside the generic block / "
+            "plane loops of read_write.rs beyond the address theorems of C05 (process_4x4/2x1/8x1_blocks_helper, "
+            "process_bi_planar_helper, ChannelConversionBuffer chunking), f32 arithmetic being panic-free (IEEE, "
+            "saturating casts: an assumption about Rust, not a theorem), std I/O and allocation. Termination of the "
+            "implementation's loops is only observed (watchdog); the model functions are all structurally recursive.",
     "profiles": ["release", "checked"],
     "level": "proof",
     "rule": "cases = (a) every u32 word of 7 (thorough 20) template headers of every layout kind / pixel-info family "
@@ -50,7 +68,9 @@ CFG = {
             "distinct case lines.",
     "assumptions": [
         "the implementation equals the model off the generated cases",
-        "per-pixel codec bodies, astc-decode and std are panic-free (exercised by the tie, not modelled)",
+        "astc-decode, the generic block / plane loop slicing of read_write.rs and std are panic-free (exercised by "
+        "the tie, not modelled); the trapping mirrors Trap*.lean transcribe the panic sites of the codec bodies "
+        "faithfully (by inspection; table in notes/C01.md)",
         "oracle in harness/src/c01.rs, independent of the model: no panic / hang (20 s watchdog) / abort in either "
         "profile; reader error or end of file during a call => Err(Io); Ok full decode => the stream held the whole "
         "surface; a single-surface call that used the reader fails only with Err(Io); padding between the rows of a "
@@ -58,7 +78,9 @@ CFG = {
         "the rewinding calls are only run on data sections <= i64::MAX bytes (documented expect beyond)",
     ],
     "trusted_base": ["models: Reader.lean (composition), Header.lean, HeaderTables.lean, FormatTables.lean, Layout.lean, "
-                     "Iter.lean, Decoder.lean, Stream.lean, Addr.lean; not modelled: codec bodies, astc-decode, std"],
+                     "Iter.lean, Decoder.lean, Stream.lean, Addr.lean; codec bodies: Bc.lean, Bc7.lean, Bc6.lean, Conv.lean, "
+                     "Uncompressed.lean with the trapping mirrors Trap.lean, TrapBc.lean, TrapBc7.lean, TrapBc6.lean, "
+                     "TrapUnc.lean; not modelled: astc-decode, block / plane loop slicing of read_write.rs, std"],
 }
 
 
